@@ -91,6 +91,7 @@ class Recorder:
         self.log = []
         self.hooks = {}          # name -> callable(entry) executed inside notify
         self.names = None
+        self.skip = set()        # notification names NOT to subscribe to (see C04: listeners removed by initialize)
 
     def _types(self):
         from pydsol.core.interfaces import SimulatorInterface as S, ReplicationInterface as R
@@ -101,8 +102,9 @@ class Recorder:
 
     def subscribe(self, sim):
         self.names = self._types()
-        for et in self.names:
-            sim.add_listener(et, self.listener)
+        for et, name in self.names.items():
+            if name not in self.skip:
+                sim.add_listener(et, self.listener)
 
     def _notify(self, event):
         name = self.names.get(event.event_type, str(event.event_type))
